@@ -1,0 +1,34 @@
+//go:build verif
+
+package vuego
+
+// Contracts for the verifier in /verif (govc). Comment-only: with the build tag
+// off this file does not exist for the compiler; with it on it adds no code.
+
+//@ func isLiteralAttr(key) (r)
+//@   pure
+//@   ensures C14.literal.def: r <==> hasPrefix(key, "[") && hasSuffix(key, "]")
+
+//@ spec func directive(k string) bool { k == "v-if" || k == "v-keep" || k == "v-else-if" || k == "v-else"
+//@   || k == "v-for" || k == "v-pre" || k == "v-html" || k == "v-text" || k == "v-show" || k == "v-once"
+//@   || k == "v-once-id" || k == "data-v-html-content" || k == "data-v-text-content" }
+
+//@ func shouldIgnoreAttr(key) (r)
+//@   pure
+//@   ensures C14.directives: r <==> !(hasPrefix(key, "[") && hasSuffix(key, "]")) && directive(key)
+
+//@ func escapeAttrValue(val) (r)
+//@   pure
+//@   ensures C01.attr.noquote: forall i int :: 0 <= i && i < len(r) ==> r[i] != '"'
+//@   ensures C02.attr.exact: r == Esc(val)
+
+//@ spec func attrItem(a html.Attribute) string {
+//@   (!(hasPrefix(a.Key, "[") && hasSuffix(a.Key, "]")) && directive(a.Key)) ? "" :
+//@     " " + ((hasPrefix(a.Key, "[") && hasSuffix(a.Key, "]")) ? a.Key[1:len(a.Key)-1] : a.Key) + "=\"" + Esc(a.Val) + "\"" }
+//@ spec func specAttrs(as []html.Attribute, k int) string decreases k { k <= 0 ? "" : specAttrs(as, k-1) + attrItem(as[k-1]) }
+
+//@ func renderAttrs(attrs) (r)
+//@   pure
+//@   ensures C14.attrs.exact: r == specAttrs(attrs, len(attrs))
+//@   loop 0 invariant bounds: 0 <= $i && $i <= len(attrs)
+//@   loop 0 invariant C14.attrs.prefix: built(&sb) == specAttrs(attrs, $i)
